@@ -18,7 +18,8 @@ EXPLANATION = (
     'so the i-th displayed number of a part is (Lp - Ld) + 1 + i doctest-relative and Lp + i file-relative. '
     'R2 PATH-COUNT: the displayed source comes from the original prompt lines (prefix on) or the executable lines (prefix off) through one join, '
     'every want line is appended exactly once and only under the `want` option, the want block follows the source block, and format_src joins '
-    'the parts in order. That re-parsing the formatted text yields the same doctest is not decided.')
+    'the parts in order. That re-parsing the formatted text yields the same doctest is not decided.'
+    " R2/R2b also for want rows built by a comprehension. R5 optional formatting arguments are merged with the configuration by `is None` (getvalue), never by truthiness. R6 where _complete_source inserts a continuation prompt into the stored line it inserts it into the labeller's view too.")
 DECIDES = ['AFFINE numbering of displayed lines', 'PATH-COUNT emission of source and want lines']
 NOT_DECIDED = ['re-parse round trip of the formatted text', 'colouring / number width']
 
